@@ -21,6 +21,14 @@ package newick
 //@   ensures S.pos >= p0 && S.pos <= S.end
 //@   ensures S.fired == (old(r.r.fired) || result.1 == S.err)
 //@   ensures p0 == S.end && active0 ==> result.1 == S.err
+// completeness: the tokenizer fails only at the end of the stream (io.EOF: nothing but white space was left), on the reader's
+// own failure, or on a quote that follows other token bytes
+//@   ensures @C05,C06,C07 ioErr(result.1) ==> active0
+//@   ensures @C05,C06 result.1 == 1 ==> forall j int :: p0 <= j && j < S.end ==> nwWS(S.in[j])
+// a separator token is that byte of the stream, preceded only by white space; a quoted token starts at a quote of the stream
+//@   ensures @C05,C06 result.1 == nil && nwSep(result.0[0]) ==> len(result.0) == 1 && result.0[0] == S.in[S.pos - 1] && forall j int :: p0 <= j && j < S.pos - 1 ==> nwWS(S.in[j])
+//@   ensures @C05,C06 result.1 == nil && result.0[0] == 39 ==> exists j int :: p0 <= j && j < S.pos && S.in[j] == 39
+//@   ensures @C05,C06 localErr(result.1) ==> exists j int :: p0 <= j && j < S.pos && S.in[j] == 39
 //@   ensures @C05,C06,C11 result.1 == nil ==> len(result.0) >= 1
 //@   ensures @C05,C06,C11 result.1 == nil && result.0[0] != 39 ==> forall k int :: 0 <= k && k < len(result.0) ==> !nwWS(result.0[k]) && result.0[k] != 39
 //@   ensures @C05,C06,C11 result.1 == nil && result.0[0] != 39 && len(result.0) >= 2 ==> forall k int :: 0 <= k && k < len(result.0) ==> !nwSep(result.0[k])
@@ -37,6 +45,7 @@ package newick
 //@     invariant r.r.fired == old(r.r.fired)
 //@     invariant len(r.b.out) > 0 ==> r.r.pos > p0
 //@     invariant quote ==> len(r.b.out) > 0 && r.b.out[0] == 39
+//@     invariant quote ==> exists j int :: p0 <= j && j < r.r.pos && S.in[j] == 39
 //@     invariant !quote ==> p0 <= r.r.pos - len(r.b.out) && forall k int :: 0 <= k && k < len(r.b.out) ==> r.b.out[k] == S.in[r.r.pos - len(r.b.out) + k]
 //@     invariant !quote ==> forall j int :: p0 <= j && j < r.r.pos - len(r.b.out) ==> nwWS(S.in[j])
 //@     invariant !quote ==> forall k int :: 0 <= k && k < len(r.b.out) ==> !nwWS(r.b.out[k]) && !nwSep(r.b.out[k]) && r.b.out[k] != 39
